@@ -616,21 +616,6 @@ example : ¬ NumaOk { cfgS0 2 with pm := fun _ => true } ∧
 called with by `run_or_start` (`startup`).  Tied to the code by `harness/e0/affinity_cmd.cpp`
 (real `command_line_handling::call` + `affinity_data::init` under synthetic machines). -/
 
-/-- the request built from the command line has `used_cores = 0` and the machine / mask given -/
-theorem cmdCfg_fields (cmd : Cmd) (t : Topo) (pm : Nat → Bool) (cfg : Cfg)
-    (h : cmdCfg cmd t pm = some cfg) :
-    cfg.t = t ∧ cfg.pm = pm ∧ cfg.usePm = !cmd.ignoreMask ∧ cfg.used = 0 ∧ 0 < cfg.n ∧
-    (cmd.cores = .dflt → cfg.maxCores = cfg.n) := by
-  unfold cmdCfg at h
-  simp only at h
-  split at h
-  · simp at h
-  · rename_i hn
-    simp only [Option.some.injEq] at h
-    subst h
-    refine ⟨rfl, rfl, rfl, rfl, by simp only; omega, ?_⟩
-    intro hc; simp [cmdCores, hc]
-
 /-- **Oversubscription is rejected at start-up, whatever the combination of `--pika:threads`,
     `--pika:cores` and `--pika:ignore-process-mask`** (every binding mode other than `none`): more
     threads than PUs in the process mask — or in the machine when the mask is ignored — makes
